@@ -799,7 +799,10 @@ DEFAULT_KEEP = frozenset({"reinsert_atoms", "maxwell_boltzmann_distribution", "s
 def flat(prog: Program, fi: FuncInfo, cls: ClassInfo | None = None, function_guards: bool = False, keep=(), public_methods: bool = False) -> FuncInfo:
     """A FuncInfo whose node is the normalised (inlined, structured, canonicalised) function."""
     keep = frozenset(keep) | DEFAULT_KEEP
-    key = (id(prog), fi.qualname, fi.module.name, cls.qualname if cls else None, function_guards, keep, public_methods)
+    # the cache lives on the Program object: a key made of id(prog) could be reused by a later Program in the same
+    # worker process (self-test variants) and hand back the normal form of another tree
+    _cache = prog.__dict__.setdefault("_flat_cache", {})
+    key = (fi.qualname, fi.module.name, cls.qualname if cls else None, function_guards, keep, public_methods)
     if key in _cache:
         return _cache[key]
     fl = Flattener(prog, fi, cls, function_guards=function_guards, keep=keep, public_methods=public_methods)
